@@ -411,9 +411,180 @@ def ios_frame_pointer(res, prog, cu):
         res.error('C04.12', 'minidump_unwind::arm::FRAME_POINTER not found')
         return
     fs = [f for f in cu.fns if re.search(r'^minidump_unwind::arm::get_caller_by_frame_pointer(::\{closure#0\})?$', f.path)]
-    ios_only = any(any(r[0] in ('eq', 'ne') and 'Os::Ios' in (show(r[2]) if len(r) > 2 and isinstance(r[2], tuple) else '') for r, g, sx in panics.dominating_facts(f, b)) for f in fs for b, t in f.calls() if (f.callee(t) or '').endswith('get_register'))
+    adt = prog.crate('minidump').adts.get('minidump::system_info::Os')
+    views, _ = with_helpers(prog, 'minidump_unwind', r'^minidump_unwind::arm::get_caller_by_frame_pointer$')
+    fv = views.get('minidump_unwind::arm::get_caller_by_frame_pointer')
+    ios_only = False
+    if adt and fv is not None:
+        reads = [b for b, t in fv.calls() if re.search(r'(get_register|get_memory_at_address|get_register_always)$', fv.callee(t) or '')]
+        ios_only = variants_reaching(prog, fv, adt, _is_os, reads)[0] == {'Ios'}
     if v['str'] != 'r7' and ios_only:
         res.violation('C04.12', 'C04.12|ios-fp', fs[0] if fs else None, None, 'the ARM frame-pointer technique is used on iOS only and follows "%s" (r11); on iOS the frame pointer is r7, so standard `push {r7, lr}; mov r7, sp` chains are not walked by frame pointer' % v['str'], file='minidump-unwind/src/arm.rs')
+
+
+def _unref(x):
+    while isinstance(x, tuple) and x and x[0] in ('ref', 'deref', 'copy', 'move') and len(x) >= 2:
+        x = x[-1]
+    return x
+
+
+def variants_reaching(prog, fn, adt, is_subject, targets):
+    """For every variant of an enum: can a target block be reached from the entry when each decision on the subject
+    (a switch on its discriminant, or on PartialEq::eq / ne against a fieldless variant) is resolved for that variant?
+    Decisions the rule cannot resolve keep all their successors.  Returns (set of variant names, number of decisions resolved)."""
+    names = dict((v['name'], v) for v in adt['variants'])
+    resolved = set()
+
+    def decide(x, v):
+        x = _unref(x)
+        if not isinstance(x, tuple) or not x:
+            return None
+        if x[0] == 'discr' and is_subject(_unref(x[1])):
+            return v['discr']
+        if x[0] == 'call' and re.search(r'PartialEq(<[^>]*>)?>?::(eq|ne)$', str(x[1])) and len(x) >= 4:
+            a, b = _unref(x[2]), _unref(x[3])
+            if is_subject(b):
+                a, b = b, a
+            if is_subject(a) and isinstance(b, tuple) and b[0] == 'adt' and len(b) == 2 and str(b[1]).startswith(adt['path'] + '::'):
+                same = str(b[1]).rsplit('::', 1)[1] == v['name']
+                return int(same if str(x[1]).endswith('eq') else not same)
+        if x[0] in ('not',) and len(x) == 2:
+            r = decide(x[1], v)
+            return None if r is None else int(not r)
+        if x[0] == 'un' and len(x) == 3 and x[1] == 'Not':
+            r = decide(x[2], v)
+            return None if r is None else int(not r)
+        return None
+    # flag locals: the bare operands of switches, closed backwards under copies and `!` (the lowering of `matches!`,
+    # `||`, `&&`, `let flag = match ..`); their constant values are carried along each explored path
+    def bare(x):
+        pl = (x.get('m') or x.get('c')) if isinstance(x, dict) else None
+        return pl['l'] if pl and not pl.get('p') else None
+
+    def src(rv):
+        """(local, negated) when the rvalue is a copy or a negation of a bare local"""
+        if rv.get('k') == 'use':
+            l = bare(rv.get('x', {}))
+            return (l, False) if l is not None else None
+        if rv.get('k') in ('un', 'unary') and rv.get('op') == 'Not':
+            l = bare(rv.get('x', {}))
+            return (l, True) if l is not None else None
+        return None
+    flags = set(l for l in (bare(blk['t']['x']) for blk in fn.blocks if blk['t']['k'] == 'switch') if l is not None)
+    grew = True
+    while grew:
+        grew = False
+        for blk in fn.blocks:
+            for st_ in blk['s']:
+                if st_.get('k') == 'assign' and not st_['lhs'].get('p') and st_['lhs']['l'] in flags:
+                    sr = src(st_['rv'])
+                    if sr and sr[0] not in flags:
+                        flags.add(sr[0])
+                        grew = True
+    out = set()
+    for v in adt['variants']:
+        seen, st = set(), [(0, frozenset())]
+        while st:
+            b, env = st.pop()
+            if (b, env) in seen:
+                continue
+            seen.add((b, env))
+            blk = fn.blocks[b]
+            e = dict(env)
+            for st_ in blk['s']:
+                if st_.get('k') != 'assign' or st_['lhs'].get('p') or st_['lhs']['l'] not in flags:
+                    continue
+                l, rv = st_['lhs']['l'], st_['rv']
+                k = rv.get('x', {}).get('k') if rv.get('k') == 'use' and isinstance(rv.get('x'), dict) else None
+                sr = src(rv)
+                if isinstance(k, dict) and 'int' in k:
+                    e[l] = k['int']
+                elif sr and sr[0] in e:
+                    e[l] = int(not e[sr[0]]) if sr[1] else e[sr[0]]
+                else:
+                    r = decide(fn.expand(fn.rvalue_tree(rv)), v) if rv.get('k') != 'use' else None
+                    if r is not None:
+                        e[l] = r
+                    else:
+                        e.pop(l, None)
+            t = blk['t']
+            if t.get('dest') and not t['dest'].get('p'):
+                e.pop(t['dest']['l'], None)
+            env2 = frozenset(e.items())
+            succs = list(fn.succ[b])
+            if t['k'] == 'switch':
+                l = bare(t['x'])
+                r = e[l] if l in e else decide(fn.expand(fn.operand_tree(t['x'])), v)
+                if r is not None:
+                    resolved.add(b)
+                    tgt = [tg for val, tg in t['ts'] if val == r]
+                    succs = tgt or [t['o']]
+            st.extend((s_, env2) for s_ in succs)
+        if set(b for b, _ in seen) & set(targets):
+            out.add(v['name'])
+    return out, len(resolved)
+
+
+def _is_os(x):
+    return isinstance(x, tuple) and len(x) == 3 and x[0] == 'field' and x[2] == 'os' and 'system_info' in str(x[1])
+
+
+def os_gates(res, prog, cu):
+    """C04.13: the two OS-dependent technique preconditions of the statement.  (a) The ARM frame-pointer technique reads
+    registers and stack memory for Os::Ios only: every other OS leaves before the first read.  (b) The amd64 frame-pointer
+    technique applies the 240-byte probe (15 further 16-byte slots) for Os::Windows only and the plain frame-pointer
+    layout (no slack) for every other OS.  Decided by resolving every decision on `system_info.os` for each variant of
+    minidump::system_info::Os in turn and asking which variants reach the reads / the probe call."""
+    res.rule('C04.13', 0, floor=3, note='OS preconditions of the frame-pointer techniques: ARM reads for iOS only; amd64 probes 15 extra slots for Windows only, none elsewhere')
+    adt = prog.crate('minidump').adts.get('minidump::system_info::Os')
+    if not adt:
+        res.error('C04.13', 'enum minidump::system_info::Os not found')
+        return
+    views, _ = with_helpers(prog, 'minidump_unwind', r'^minidump_unwind::(arm|amd64)::get_caller_by_frame_pointer$')
+    allv = set(v['name'] for v in adt['variants'])
+    # (a) arm
+    f = views.get('minidump_unwind::arm::get_caller_by_frame_pointer')
+    if f is None:
+        res.error('C04.13', 'minidump_unwind::arm::get_caller_by_frame_pointer not found')
+    else:
+        reads = [b for b, t in f.calls() if re.search(r'(get_register|get_memory_at_address|get_register_always)$', f.callee(t) or '')]
+        if not reads:
+            res.error('C04.13', 'no register or stack read found in the ARM frame-pointer technique')
+        got, n = variants_reaching(prog, f, adt, _is_os, reads)
+        res.rule('C04.13', 1)
+        if got != {'Ios'}:
+            extra, missing = sorted(got - {'Ios'}), sorted({'Ios'} - got)
+            res.violation('C04.13', 'C04.13|arm-os', f, None, 'the ARM frame-pointer technique must run for Os::Ios only (elsewhere r11 / lr are general-purpose registers): its register and stack reads are %s' % (
+                ('also reached for ' + ', '.join('Os::' + x for x in extra)) if extra else 'not reached for Os::Ios'), file='minidump-unwind/src/arm.rs')
+    # (b) amd64
+    f = views.get('minidump_unwind::amd64::get_caller_by_frame_pointer')
+    if f is None:
+        res.error('C04.13', 'minidump_unwind::amd64::get_caller_by_frame_pointer not found')
+        return
+    probe, plain = [], []
+    for b, t in f.calls():
+        if not re.search(r'get_caller_by_frame_pointer::\{closure#\d+\}$', f.callee(t) or ''):
+            continue
+        a = f.expand(f.operand_tree(t['args'][1])) if len(t['args']) > 1 else None
+        if isinstance(a, tuple) and a[0] == 'tuple' and len(a) == 3:
+            n = a[1]
+            if n == ('int', 0):
+                plain.append(b)
+            elif isinstance(n, tuple) and n[0] == 'int':
+                probe.append((b, n[1], a[2]))
+    if not probe or not plain:
+        res.error('C04.13', 'the two calls of the amd64 frame-pointer resolver (probing / plain) were not found')
+        return
+    gp, _n = variants_reaching(prog, f, adt, _is_os, [b for b, _, _ in probe])
+    gq, _n = variants_reaching(prog, f, adt, _is_os, plain)
+    res.rule('C04.13', 2)
+    if gp != {'Windows'}:
+        res.violation('C04.13', 'C04.13|amd64-probe-os', f, None, 'the 240-byte frame-pointer probe is the Windows x64 precondition: it is reached for %s' % (', '.join('Os::' + x for x in sorted(gp)) or 'no OS'), file='minidump-unwind/src/amd64.rs')
+    if gq != allv - {'Windows'}:
+        res.violation('C04.13', 'C04.13|amd64-plain-os', f, None, 'the plain frame-pointer layout must be used for every OS but Windows: it is reached for %s' % (', '.join('Os::' + x for x in sorted(gq)) or 'no OS'), file='minidump-unwind/src/amd64.rs')
+    for b, n, step in probe:
+        if n != 15 or 'POINTER_WIDTH' not in str(step) or ('int', 2) not in (step[2:] if isinstance(step, tuple) else ()):
+            res.violation('C04.13', 'C04.13|amd64-slack', f, f.blocks[b]['t'].get('line'), 'the Windows x64 probe must cover 240 bytes of slack: 15 further slots of 2 * POINTER_WIDTH bytes; found (%s, %s)' % (n, show(step)), file='minidump-unwind/src/amd64.rs')
 
 
 def run(tier, t0):
@@ -441,6 +612,7 @@ def run(tier, t0):
     mips_abi_dispatch(res, prog, cu)
     amd64_probe(res, prog, cu)
     ios_frame_pointer(res, prog, cu)
+    os_gates(res, prog, cu)
     res.assumptions += ['that frames, registers and names come out right for a given stack is behavioural: a fault inside a technique\'s arithmetic is invisible to these rules']
     return harness.finish(res, tier, t0, distinct=9, explanation=(
         'Narrow claim: necessary structural conditions of correct walking. Technique priority and retry discipline in each architecture, technique labels, MIR-level equality of the arm64 / arm64_old twins modulo the context type, '
